@@ -191,7 +191,14 @@ def verify_functions(prop, rep, extra_requires=None, only=None):
             c.requires = saved + list(extra_requires[key])
         try:
             try:
-                seg = repo.segment(key) if c.body is None else dict(path="<ghost client code in the sidecar>", qualname=key, first_line=0, last_line=0, sha256=hashlib.sha256(c.body.encode()).hexdigest())
+                seg = None
+                if c.body is not None and not key.startswith("ghost:"):
+                    try:
+                        seg = repo.segment(key)      # a mixin restated as ghost code, now overridden by a real definition
+                    except KeyError:
+                        seg = None
+                if seg is None:
+                    seg = repo.segment(key) if c.body is None else dict(path="<ghost client code in the sidecar>", qualname=key, first_line=0, last_line=0, sha256=hashlib.sha256(c.body.encode()).hexdigest())
             except KeyError as ex:
                 rep.demoted.append({"function": key, "reason": "definition not found: %s" % ex})
                 continue
